@@ -145,6 +145,8 @@ def gen_config(ch, max_nodes=220, allow_thin=True):
     cfg["bitpix"] = ch.pick("bitpix", (-64, -32, -32, -64, 32, -32, 16))     # integer BITPIX: see gen_content
     # BSCALE keyword: the file stores physical/BSCALE (exact: powers of two); None = keyword absent
     cfg["bscale"] = ch.pick("bscale", (None, None, None, None, 2.0, None, -2.0, 0.5, 1.0, -1.0))
+    # BZERO keyword (physical = stored * BSCALE + BZERO), with or without BSCALE; dyadic values keep everything exact
+    cfg["bzero"] = ch.pick("bzero", (None, None, None, None, None, 128.0, -8.0, None))
     return cfg
 
 
@@ -167,6 +169,8 @@ def gen_content(ch, cfg):
         c["blank"], c["blank_inf"] = "none", False
         if cfg["bitpix"] == 16 and c["offset_pow"] is not None and c["offset_pow"] - c["sigma_pow"] + 8 > 13:
             c["offset_pow"] = c["sigma_pow"] + 4       # keep |stored| < 2^15
+        if cfg.get("bzero") is not None:
+            cfg["bzero"] = 1024.0 * cfg["bscale"] * (1.0 if cfg["bzero"] > 0 else -1.0)     # stays a whole number of quanta
         if cfg["bitpix"] == 16 and c["kind"] == "sources":
             cfg["bitpix"] = 32                         # bright sources do not fit into 16 bits at this quantum
     return c
@@ -226,7 +230,8 @@ def write_image(path, cfg, img):
     fits = _state["fits"]
     dtype = file_dtype(cfg)
     bscale = cfg.get("bscale")
-    data = (img / bscale if bscale else img).astype(dtype)
+    bzero = cfg.get("bzero")
+    data = ((img - (bzero or 0.0)) / (bscale or 1.0)).astype(dtype)
     if cfg["naxis"] == 3:
         cube = np.stack([data + 0] * cfg["nplanes"])
         for p in range(cfg["nplanes"]):
@@ -247,6 +252,8 @@ def write_image(path, cfg, img):
     h["CDELT1"], h["CDELT2"] = -1.0 / 3600, 1.0 / 3600
     if bscale:
         h["BSCALE"] = float(bscale)
+    if bzero is not None:
+        h["BZERO"] = float(bzero)
     hdu.writeto(path, overwrite=True)
     return path
 
